@@ -52,6 +52,7 @@ type modelProc struct {
 	out     *bufio.Reader
 	ciphers []*blowfish.Cipher
 	calls   int
+	extra   func(p []string) (string, bool) // further primitives
 }
 
 func startModel() (*modelProc, error) {
@@ -125,6 +126,11 @@ func (m *modelProc) run(req string) (string, error) {
 			reply = hx(dst)
 		default:
 			reply = "-"
+			if m.extra != nil {
+				if x, ok := m.extra(p); ok {
+					reply = x
+				}
+			}
 		}
 		fmt.Fprintln(m.in, reply)
 	}
